@@ -248,6 +248,12 @@ impl<'tcx> Cx<'tcx> {
                     );
                     return self.mir_const(mc, env, rustc_span::DUMMY_SP);
                 }
+                if uv.args.is_empty() {
+                    if let Ok(cv) = self.tcx.const_eval_poly(uv.def) {
+                        let t = self.tcx.type_of(uv.def).instantiate_identity().skip_norm_wip();
+                        return self.const_value(cv, t);
+                    }
+                }
                 J::O(vec![("unevaluated", s(self.path(uv.def)))])
             }
             _ => J::O(vec![("unknown", s(format!("{:?}", c)))]),
